@@ -83,6 +83,30 @@ def sign_patterns(run, tier, rng):
                     continue
                 if got.tobytes() != want.tobytes():
                     run.violation({"kind": "reloaded_transform_differs", "target": "raw", "constant_coefficient": const, "n_vectors": n})
+        # "sequences of save calls on the same path": statistics of FEWER coefficients saved where wider ones were (and the other
+        # way round) - what reloads is the last save, whole
+        for fn, lkw in (("w.bin", {"force_as": "file"}), ("w.npy", {}), ("w.npz", {}), ("w_noext", {"force_as": "file"})):
+            for (d1, d2) in ((40, 13), (13, 40), (6, 2), (5, 4)):
+                k += 1
+                path = os.path.join(tmp, "%d_%s" % (k, fn))
+                wide, narrow = post.Standardize(), post.Standardize()
+                wide.accumulate(nprng.randn(9, d1) * 2 + 1)
+                narrow.accumulate(nprng.randn(9, d2) * 3 - 1)
+                probe = nprng.randn(4, d2)
+                run.evaluations += 1
+                try:
+                    with warnings.catch_warnings():
+                        warnings.simplefilter("ignore")
+                        wide.save(path)
+                        narrow.save(path)
+                        want = narrow.apply(probe)
+                        got = post.Standardize(path, **lkw).apply(probe)
+                except Exception as e:
+                    run.violation({"kind": "save_reload_raised", "target": fn, "coefficients": [d1, d2], "what": "second save on the same path",
+                                   "error": repr(e)})
+                    continue
+                if got.tobytes() != want.tobytes():
+                    run.violation({"kind": "reloaded_transform_differs", "target": fn, "coefficients": [d1, d2], "what": "second save on the same path"})
         # keyword arguments of the constructor are handed to the reader (documented); a memory-mapped .npy among them.
         # What was loaded is the instance's own: a later save to that path does not reach it, and what it accumulates
         # does not reach the file before it saves
